@@ -755,7 +755,12 @@ class Phase(Angle):
                 # downgrading ourself to a quantity and see if things work.
                 pass
 
-        elif function in {np.floor_divide, np.remainder, np.divmod} and basic_real:
+        elif function in {np.floor_divide, np.remainder, np.divmod} and (
+            basic_real and i_self == 0
+        ):
+            # A Phase divisor is used as a regular Angle (would recurse otherwise).
+            if isinstance(inputs[1], Phase):
+                inputs = (inputs[0], inputs[1].cycle)
             fd_out = None
             if out is not None:
                 if function is np.divmod:
